@@ -135,6 +135,17 @@ Theorem C02_gmm_diagonal_saliency_em_step_ascent (K' D N : nat) (tiny epsw : R) 
 Proof. intros HN Hs Hw Hsum Hv Hm Hv2. eapply gmm_sal_em_step_ascent; eauto. Qed.
 Print Assumptions C02_gmm_diagonal_saliency_em_step_ascent.
 
+(* full-covariance Gaussian (and the matrix part of the cACG surrogate): written in the eigenbasis of Sigma^-1 S - contract of
+   the eigen-decomposition: ln det(Sigma^-1 S) = sum ln lam_i, tr(Sigma^-1 S) = sum lam_i, lam_i > 0 - the class part of Q,
+   -c/2 (ln det Sigma + tr(Sigma^-1 S)) = -c/2 (ln det S - sum ln lam_i + sum lam_i), is largest at Sigma = S (all lam_i = 1).
+   _partial: the reduction to the eigenbasis is the contract, not proved here; it is what the per-step evaluation of
+   Q(new|old) >= Q(old|old) on the recorded trajectories checks for the implementation. *)
+Theorem C02_full_covariance_mstep_spectral_partial (D : nat) (c ldS : R) (lam : nat -> R) :
+  0 <= c -> (forall i, (i < D)%nat -> 0 < lam i) ->
+  - c / 2 * (ldS - rsum D (fun i => ln (lam i)) + rsum D lam) <= - c / 2 * (ldS + INR D).
+Proof. intros Hc H. eapply full_covariance_mstep_spectral; eauto. Qed.
+Print Assumptions C02_full_covariance_mstep_spectral_partial.
+
 (* the guard of the GMM theorems is met by a concrete two-class model *)
 Example C02_gmm_guard_satisfiable : gmm_guard 1 1 2 (/ 2) (/ 2) ex_y ex_t.
 Proof. exact gmm_guard_satisfiable. Qed.
